@@ -146,14 +146,17 @@ def run_tie(run, tier, seed, results):
     quick = tier == "quick"
     items = []
     for name, jobs, outs, _ in results:
-        for j, o in zip(jobs, outs):
+        pick = list(zip(jobs, outs))
+        if quick and name == "small":
+            pick = pick[::2]               # quick tier: every other history of the exhaustive stream (all of the others)
+        for j, o in pick:
             if j.get("export"):
                 items.append((name, j, o))
     if not quick:
         items = items[:2500]
     cases = [c_case(j, o) for _, j, o in items]
     res = dict(core.coq_eval_cases("C04", "bridge", IMPORTS, "c04e_case", cases,
-                                   "run_cases (fun c => 100 + 10 * c04e_why c + chk_c04e c)", chunk=12, timeout=1500))
+                                   "run_cases (fun c => 100 + 10 * c04e_why c + chk_c04e c)", chunk=30, timeout=1500))
     n = len(items)
     code = {i: (res[i] - 100) % 10 for i in range(n)}
     why = {i: (res[i] - 100) // 10 for i in range(n)}
@@ -177,7 +180,7 @@ def run_tie(run, tier, seed, results):
                loops_outside_frag_ok2=count(8), rejected_by_impl=sum(1 for _, _, o in items if o["pkg"] is None),
                per_stream=per_stream,
                kind_pairs_inside={f"{a}->{b}": k for (a, b), k in sorted(pairs.items())},
-               rule="every exported history of the C04 streams; non-trivial = inside the fragment and the history re-connects a port; distinct by (instance kinds, operations)",
+               rule="every exported history of the C04 streams (quick tier: every other one of `small`); non-trivial = inside the fragment and the history re-connects a port; distinct by (instance kinds, operations)",
                compared="final mapping, model state and design_of computed in Coq from the operations; hypotheses of Props/C04E.v; net labels and leaf "
                         "devices of the pipeline model's package for design_of(final) against the implementation's package; syntactic identity as information")
     run.coverage["bridge_inside_fraction"] = round(len(inside) / max(n, 1), 4)
